@@ -527,7 +527,7 @@ def rule_addressing(ck, facts):
             ck.ok(R, "total_size|cover")
 
 
-def rule_fast_path(ck, facts):
+def rule_fast_path(ck, facts, forward=True, converse=True):
     """consumers of a migration plan that also know both layouts may skip the plan and keep the old buffer verbatim
     only when the layouts are equal"""
     R = "C08.fast-path"
@@ -612,19 +612,72 @@ def rule_fast_path(ck, facts):
                 x = x[1] if x[0] in ("ref", "deref") else x[2][0]
             if not (isinstance(x, tuple) and x and x[0] == "call" and x[1].split("::")[-1] in ("clone", "to_vec", "to_owned")):
                 lost = setters[-1][3]
-        if n_keep:
+        if n_keep and converse:
             key2 = "unchanged-keeps|%s" % f.short.split("::")[-1]
             if lost is None:
                 ck.ok(R, key2, {"fn": f.short, "paths_with_equal_layouts_and_empty_plan": n_keep, "installed": "copy of the old buffer"})
             else:
                 ck.bad(R, key2, "%s: on a path where the layouts are equal and the plan is empty the installed state is not a copy of the old buffer (the prewarmed zero state with no patch applied): swapping an unchanged program resets every cell" % f.short, f.where(lost))
         key = "verbatim-copy|%s" % f.short.split("::")[-1]
+        if not forward:
+            continue
         if n_copy == 0:
             ck.ok(R, key, {"fn": f.short, "verbatim_copy_paths_after_comparison": 0})
         elif bad is None:
             ck.ok(R, key, {"fn": f.short, "verbatim_copy_paths_after_comparison": n_copy, "all_on": "layouts equal"})
         else:
             ck.bad(R, key, "%s compares the old and the new layout but also keeps the old state buffer verbatim on a path where they differ: a swap in which no subtree survives (empty patch list) installs the stale words under the new layout instead of starting from zero with the new size" % f.short, f.where(bad))
+
+
+def rule_no_plan(ck, facts):
+    """the protocol between the plan builder and the runtimes: `None` means `the layouts are equal, keep the buffer`"""
+    R = "C08.fast-path"
+    found = 0
+    for crate in (ST, roles.LANG, "mimium_cli"):
+        try:
+            fl = facts.crate(crate).fns
+        except KeyError:
+            continue
+        for f in fl:
+            if f.kind == "promoted" or "::test" in f.path or "Option<" not in f.local_ty(0) or "StateStoragePatchPlan" not in f.local_ty(0):
+                continue
+            eqs = [(b, t) for b, t in f.calls() if (callee(t) or "").split("::")[-1] in ("eq", "ne") and "StateTreeSkeleton" in ((t[4].get("full") or "") if isinstance(t[4], dict) else "")]
+            nones = [(b, st) for b, st in f.all_stmts() if st[KIND] == "a" and st[4][0] == 0 and st[5][0] == "agg" and st[5][1][0] == "adt" and st[5][1][1].endswith("::Option") and st[5][1][3] == "None"]
+            if not nones:
+                continue
+            found += 1
+            key = "no-plan|%s" % f.short.split("::")[-1]
+            if not eqs:
+                ck.bad(R, key, "%s answers `no plan` (None) without comparing the two layouts: the runtimes read None as `layouts equal, keep the old buffer`" % f.short, f.where(nones[0][1]))
+                continue
+            dom = dominators(f)
+            # blocks reached only through the `equal` edge of a comparison
+            equal_edges = []
+            for b, t in eqs:
+                is_ne = (callee(t) or "").split("::")[-1] == "ne"
+                nb = t[7]
+                # follow straight-line blocks to the switch on the call's result
+                for _ in range(6):
+                    if nb is None:
+                        break
+                    tt = f.term(nb)
+                    if tt[KIND] == "switch":
+                        zero = [tb for v, tb in tt[6] if int(v) == 0]
+                        other = tt[7]
+                        if zero:
+                            equal_edges.append(zero[0] if is_ne else other)
+                        break
+                    sc = f.succs(nb)
+                    nb = sc[0] if len(sc) == 1 else None
+            bad = None
+            for b, st in nones:
+                if not any(e == b or e in dom.get(b, ()) for e in equal_edges):
+                    bad = st
+            if bad is None:
+                ck.ok(R, key, {"fn": f.short, "none_returns": len(nones), "all_under": "layouts equal"})
+            else:
+                ck.bad(R, key, "%s answers `no plan` (None) on a path that is not the `layouts are equal` edge of its skeleton comparison: the runtimes read None as `keep the old state buffer verbatim`, so a swap whose diff carries nothing over (every stateful site replaced) leaves the stale words under the new layout instead of an all-zero buffer of the new size" % f.short, f.where(bad))
+    ck.floor(R, "plan_builders_answering_none", found, 1)
 
 
 def rule_source_size(ck, facts):
@@ -704,6 +757,7 @@ def run(ck, facts, tier):
     rule_apply(ck, facts)
     rule_addressing(ck, facts)
     rule_fast_path(ck, facts)
+    rule_no_plan(ck, facts)
     rule_source_size(ck, facts)
     ck.not_decided("optimality of the greedy backtrack ('every surviving subtree is carried over') beyond the recurrence/backtrack shape rules")
     ck.not_decided("'never writes a destination word twice' for arbitrary trees (follows from monotone matching + prefix-sum addressing, which are checked as shapes, not proved)")
